@@ -374,7 +374,16 @@ func (e *vfC01Env) col0Src(r *vfRand) string {
 				if len([]rune(w1)) < 3 || strings.Contains(w1, ws[0]) || strings.Contains(ws[0], w1) {
 					continue
 				}
-				if strings.Count(dd.content, ws[0]) > strings.Count(dd.content, w1) {
+				if strings.Count(dd.content, ws[0]) <= strings.Count(dd.content, w1) {
+					continue
+				}
+				only0 := true // on every line that holds both, W0 stands at column 0 only
+				for _, l2 := range strings.Split(dd.content, "\n") {
+					if strings.Contains(l2, w1) && strings.Contains(l2, ws[0]) && strings.LastIndex(l2, ws[0]) != 0 {
+						only0 = false
+					}
+				}
+				if only0 || len(cands) == 0 {
 					cands = append(cands, stdregexp.QuoteMeta(ws[0])+".*"+stdregexp.QuoteMeta(w1))
 				}
 			}
@@ -387,8 +396,9 @@ func (e *vfC01Env) col0Src(r *vfRand) string {
 }
 
 func (e *vfC01Env) sameLineSrc(r *vfRand) string {
-	if r.Chance(45) {
+	if r.Chance(55) {
 		if s := e.col0Src(r); s != "" {
+			e.xcls = append(e.xcls, "re-col0")
 			return s
 		}
 	}
@@ -889,7 +899,7 @@ func (e *vfC01Env) atom(r *vfRand) query.Q {
 			}
 		}
 	}
-	if r.Chance(9) { // content regexps of the same-line shape lit.*lit(.*lit): andLineMatchTree
+	if r.Chance(12) { // content regexps of the same-line shape lit.*lit(.*lit): andLineMatchTree
 		if src := e.sameLineSrc(r); src != "" {
 			if re, err := syntax.Parse(src, syntax.ClassNL|syntax.PerlX|syntax.UnicodeGroups); err == nil {
 				re = query.OptimizeRegexp(re, syntax.ClassNL|syntax.PerlX|syntax.UnicodeGroups)
